@@ -24,6 +24,7 @@ Index gv_wrow;   /* ghost: row whose pivot was being tested (witness of a NonPos
 Float gv_tol;    /* ghost: the tolerance the pivots were compared with */
 Float gv_q;      /* ghost: the scale (largest diagonal element) the tolerance was derived from */
 Float gv_d0;     /* ghost: diagonal element of row gv_k0 as the scaling pass read it */
+int gv_allnum;   /* ghost: every diagonal element the scaling pass read is a number (not a NaN) */
 
 #define CVP_STDMAX(a, b) ((a) < (b) ? (b) : (a))   /* std::max(a,b): "if (a < b) return b; return a;" */
 #define CVP_STDMIN(a, b) ((b) < (a) ? (b) : (a))   /* std::min(a,b): "if (b < a) return b; return a;" */
@@ -45,7 +46,8 @@ Float gv_d0;     /* ghost: diagonal element of row gv_k0 as the scaling pass rea
   CVP_USE_STEP(N, W, row);                                                                                 \
   if (1 <= gv_k0 && gv_k0 <= row) CVP_USE_MONO(N, W, gv_k0, row);                                          \
   const Float gv_v0 = (1 <= gv_k0 && gv_k0 < row) ? REP(self)[TAB(gv_k0)] : 0;                             \
-  CVP_EXCL_NOT_NAN(*(BX));
+  CVP_EXCL_NOT_NAN(*(BX));                                                                                 \
+  CVP_EXCL_NOT_NAN(Tol);
 /* what the inner loops keep: the earlier pivot and this row's pivot stay where they are */
 #define CVP_ROW_KEEPS                                                                                      \
   (((1 <= gv_k0 && gv_k0 < row) ==> MV_SAMEVAL(REP(self)[TAB(gv_k0)], gv_v0)) && MV_SAMEVAL(REP(self)[TAB(row)], pivot))
@@ -127,7 +129,8 @@ MV_CONTRACT_MemRep_begin
            and the tolerance is >= 0: all pivots of the factorisation are positive, which is what "positive definite"
            means (C10: a matrix that is not positive definite is rejected; C15: the factorisation exists).
            E3 + E4: NonPositiveDefinite <=> some pivot met is not greater than the tolerance.
-       E5  the tolerance is derived from a scale gv_q that is >= 0 and >= every diagonal element of the input.
+       E5  the tolerance is derived from a scale gv_q that is >= 0 and >= every diagonal element of the input
+           (stated for inputs whose diagonal consists of numbers: ghost flag gv_allnum; no number is >= a NaN).
    (c) decreases clauses on the five loops.
 
    OUTLINING.  dfcc (CBMC 6.11) instruments every loop twice (base case + step), so the body of the innermost of the
@@ -144,27 +147,29 @@ MV_CONTRACT_MemRep_begin
 //@ contract CovMat_cholDec
 __CPROVER_requires(CVP_WF_COV(self))
 __CPROVER_requires(gv_exc == 0)
-__CPROVER_assigns(gv_exc, gv_wrow, gv_tol, gv_q, gv_d0; self->base.mem.sz > 0: __CPROVER_object_whole(self->base.mem.rep))
+__CPROVER_assigns(gv_exc, gv_wrow, gv_tol, gv_q, gv_d0, gv_allnum; self->base.mem.sz > 0: __CPROVER_object_whole(self->base.mem.rep))
 __CPROVER_ensures((self->base.row_ == 0) == (gv_exc == GV_BadRank))
 __CPROVER_ensures(gv_exc == 0 || gv_exc == GV_BadRank || gv_exc == GV_NonPositiveDefinite)
 __CPROVER_ensures(gv_exc == GV_NonPositiveDefinite ==>
                   (1 <= gv_wrow && gv_wrow <= self->base.row_ && REP(self)[TAB(gv_wrow)] <= gv_tol))
 __CPROVER_ensures((gv_exc == 0 && 1 <= gv_k0 && gv_k0 <= self->base.row_) ==>
                   (REP(self)[TAB(gv_k0)] > gv_tol && gv_tol >= 0 && REP(self)[TAB(gv_k0)] > 0))
-__CPROVER_ensures((gv_exc != GV_BadRank && 1 <= gv_k0 && gv_k0 <= self->base.row_) ==> (gv_q >= 0 && gv_q >= gv_d0))
+__CPROVER_ensures((gv_exc != GV_BadRank && gv_allnum && 1 <= gv_k0 && gv_k0 <= self->base.row_) ==> (gv_q >= 0 && gv_q >= gv_d0))
 //@ entry CovMat_cholDec
 GV_CANARY("CovMat_cholDec entry");
 //@ pre CovMat_cholDec 1
 CVP_USE_FIRST(N, W);
 CVP_USE_END(N, W);
+gv_allnum = 1;
 //@ loop CovMat_cholDec 1
-__CPROVER_assigns(n, row, q, k, gv_d0)
-__CPROVER_loop_invariant(1 <= row && row <= N + 1 && n == TAB(row) && q >= 0 &&
-                         ((1 <= gv_k0 && gv_k0 < row) ==> q >= gv_d0))
+__CPROVER_assigns(n, row, q, k, gv_d0, gv_allnum)
+__CPROVER_loop_invariant(1 <= row && row <= N + 1 && n == TAB(row) && (gv_allnum == 0 || gv_allnum == 1) &&
+                         (gv_allnum ==> (q >= 0 && ((1 <= gv_k0 && gv_k0 < row) ==> q >= gv_d0))))
 __CPROVER_decreases((long)N + 1 - row)
 //@ head CovMat_cholDec 1
 CVP_USE_STEP(N, W, row);
 CVP_EXCL_NOT_NAN(B[n]);
+if (B[n] != B[n]) gv_allnum = 0;
 if (row == gv_k0) gv_d0 = B[n];
 //@ pre CovMat_cholDec 2
 gv_tol = Tol;
@@ -218,7 +223,7 @@ CVP_ROW_EXIT(B)
      R4  the diagonal positions of rows <= row are not written (ghost index gv_k0), so pivots accepted earlier stay.   */
 //@ contract CovMat_cholDec_row
 __CPROVER_requires(CVP_WF_COV(self) && N == self->base.row_ && W == self->band_ && 1 <= row && row <= N)
-__CPROVER_requires(gv_exc == 0 && Tol == Tol)
+__CPROVER_requires(gv_exc == 0)
 __CPROVER_requires(__CPROVER_rw_ok(B__p, sizeof(Float *)) && !SAME(B__p, self) && !SAME(B__p, REP(self)))
 __CPROVER_requires(SAME(*B__p, REP(self)) && OFF(*B__p) == OFF(REP(self)) + FSZ * TAB(row))
 __CPROVER_assigns(gv_exc, *B__p, __CPROVER_object_whole(REP(self)))
@@ -311,7 +316,7 @@ void h_covmat_cholDec_row(void)
   mk_cov(&A);
   Index row, k0;
   Float Tol;
-  __CPROVER_assume(1 <= row && row <= A.base.row_ && Tol == Tol);
+  __CPROVER_assume(1 <= row && row <= A.base.row_);
   gv_k0 = k0;
   gv_exc = 0;
   Float *B = REP(&A) + TAB(row);
